@@ -237,19 +237,27 @@ def mark_threaded(outs, n=4):
 
 def pool_optimised(modname, fnname, jobs):
     """the same driver in a `python -O` child (assert statements removed from the library)"""
+    return pool_flags(modname, fnname, jobs, ('-O',))
+
+
+def pool_flags(modname, fnname, jobs, flags):
+    """the same driver in a child interpreter started with other command-line flags: -O (assert statements removed),
+    -bb (str() of bytes and bytes/str comparisons are errors, as in test suites and hardened deployments)"""
     import pickle
     import subprocess
     import sys
     if not jobs:
         return []
     env = dict(os.environ, CARDUTIL_REPO=core.REPO, PYTHONHASHSEED='0')
-    p = subprocess.run([sys.executable, '-O', '-B', '-m', 'harness.optchild', modname, fnname], input=pickle.dumps(jobs),
-                       capture_output=True, cwd=core.VERIF, env=env, timeout=3000)
+    p = subprocess.run([sys.executable] + list(flags) + ['-B', '-m', 'harness.optchild', modname, fnname] + list(flags),
+                       input=pickle.dumps(jobs), capture_output=True, cwd=core.VERIF, env=env, timeout=3000)
     if p.returncode != 0:
-        raise core.MachineryError('python -O child failed: ' + p.stderr.decode(errors='replace')[-800:])
+        raise core.MachineryError('python %s child failed: %s' % (' '.join(flags), p.stderr.decode(errors='replace')[-800:]))
     res = pickle.loads(p.stdout)
-    if not res['optimised']:
+    if '-O' in flags and not res['optimised']:
         raise core.MachineryError('child interpreter did not run in optimised mode')
+    if '-bb' in flags and res['bytes_warning'] < 2:
+        raise core.MachineryError('child interpreter did not run with -bb')
     return res['out']
 
 
